@@ -545,7 +545,7 @@ Builtin(N, st, name, a, multi, ln) ==
                                                    ELSE Raise(st, Str(PosPrefix(at[3]) \o a1[2])))
                              ELSE IF at[1] = "tail" THEN Unmod(st, "error level on a tail-call level")
                              ELSE IF at[1] = "host" THEN Unmod(st, "error level 2 from host-called function")
-                             ELSE Unmod(st, "error level beyond the chunk"))
+                             ELSE Raise(st, a1))                          \* no activation at that level: luaL_where gives "", the message is raised as it is
                        ELSE Unmod(st, "error level > 8"))
                  ELSE IF IsOpaqueStr(a1) /\ lv[1] = "n" /\ lv[2] > 0 THEN Unmod(st, "rethrow of fault text with position")
                  ELSE Raise(st, a1))
